@@ -2,7 +2,7 @@
 
 # property -> contract modules that register cases for it
 INDEX = {
-    "C01": ["c01"],
+    "C01": ["c01", "c04"],
     "C02": ["c01"],
     "C03": ["c03", "c20", "c16", "c11", "c09", "c17"],
     "C04": ["c04", "c06"],
